@@ -13,8 +13,12 @@
    J3  every NOTIFY goes to a SID that is subscribed (and, after the initial event, unexpired), to
        its callback URL, carries every evented variable with its current value, and has the next key
        of that SID: +1, and 2^32-1 is followed by 1;
-   J4  after the initial event a NOTIFY is only sent on account of a trigger (one per trigger and subscriber);
-   J5  triggers of one variable are at least its moderation interval apart;
+   J4  after the initial event every NOTIFY is attributed to a variable (`trig x t` items, at the NOTIFY's own instant; one
+       attribution pays for one NOTIFY per subscriber) one of whose changes has not been answered yet;
+   J5  events attributed to one variable are at least its moderation interval apart.
+       The `trig` items are an ATTRIBUTION, not an observation: on the implementation's trace the harness searches
+       for one (all possibilities) from the HTTP-level observations alone and the monitor verifies it; the trace is
+       rejected only if no attribution exists.  On the model's trace the attribution is the model's own triggers;
    J6  whenever the server is idle, every subscribed, unexpired subscriber's last event carries the
        current value of every evented variable whose last change is at least its interval old
        (so with interval 0: every change has been delivered when the operation ends);
@@ -47,6 +51,7 @@ structure Mon where
   cur : List (Option Val)      -- current value of every variable
   lastChange : List Int
   lastTrig : List (Option Int)
+  pendingChg : List Nat        -- per variable: changes not yet answered by an attributed trigger
   subs : List SubMon           -- indexed by SID number
   awaiting : Option Op         -- request whose response has not been seen yet
 deriving Repr
@@ -54,6 +59,7 @@ deriving Repr
 def Mon.init (evented : List Bool) (rate : List Nat) (defaults : List (Option Val)) : Mon :=
   { ok := true, now := 0, target := 0, evented := evented, rate := rate, cur := defaults,
     lastChange := defaults.map (fun _ => 0), lastTrig := defaults.map (fun _ => none),
+    pendingChg := defaults.map (fun _ => 0),
     subs := [], awaiting := none }
 
 /-- J6 for one subscriber -/
@@ -89,7 +95,8 @@ def Mon.close (j : Mon) : Mon :=
 def Mon.assign (j : Mon) (x : Nat) (v : Val) : Mon :=
   if j.cur[x]? = some (some v) then j
   else if x < j.cur.length then
-    { j with cur := j.cur.set x (some v), lastChange := j.lastChange.set x j.now }
+    { j with cur := j.cur.set x (some v), lastChange := j.lastChange.set x j.now,
+             pendingChg := j.pendingChg.modify x (· + 1) }
   else j
 
 def Mon.beginOp (j : Mon) : Op → Mon
@@ -149,32 +156,44 @@ def Mon.onResp (j : Mon) (o : Op) (st : Nat) (sid : Option Nat) (g : Option Int)
 
 def timeOk (j : Mon) (t : Int) : Bool := decide (j.now ≤ t) && decide (t ≤ j.target)
 
+/-- trigger credits are only good at the instant of the trigger: when the clock moves they lapse -/
+def Mon.lapse (j : Mon) (t : Int) : Mon :=
+  if j.now < t then { j with subs := j.subs.map (fun s => { s with credit := 0 }) } else j
+
+def Mon.notifyAt (j : Mon) (sid seq : Nat) (t : Int) (url : Str) (body : List (Nat × Str)) : Mon :=
+  match j.subs[sid]? with
+  | none => fail j
+  | some s =>
+    let c := s.alive && seq == s.nextSeq
+             && (s.url.isNone || s.url == some url)
+             && bodyOk j.evented j.cur body
+             && (!s.gotInitial || (decide (t < s.expires) && decide (0 < s.credit)))
+    { j with ok := j.ok && timeOk j t && c, now := t,
+             subs := j.subs.set sid { s with nextSeq := specNextKey seq, gotInitial := true,
+                                             credit := if s.gotInitial then s.credit - 1 else s.credit,
+                                             lastVals := j.cur } }
+
+/-- an event is attributed to variable x at time t (J4/J5): x is evented, one of its changes has not been answered
+    yet, the previous event attributed to x is at least x's interval old; it pays for one NOTIFY per subscriber -/
+def Mon.trigAt (j : Mon) (x : Nat) (t : Int) : Mon :=
+  let c := (j.evented.getD x false)
+           && decide (0 < j.pendingChg.getD x 0)
+           && (match j.lastTrig[x]? with
+               | some (some u) => decide (u + (j.rate.getD x 0 : Int) ≤ t)
+               | some none => true
+               | none => false)
+  { j with ok := j.ok && timeOk j t && c, now := t,
+           lastTrig := j.lastTrig.set x (some t),
+           pendingChg := j.pendingChg.modify x (· - 1),
+           subs := j.subs.map (fun s => { s with credit := s.credit + 1 }) }
+
 def Mon.onObs (j : Mon) : Obs → Mon
   | .resp st sid g =>
     (match j.awaiting with
      | some o => { (j.onResp o st sid g) with awaiting := none }
      | none => fail j)
-  | .notify sid seq t url body =>
-    (match j.subs[sid]? with
-     | none => fail j
-     | some s =>
-       let c := s.alive && seq == s.nextSeq
-                && (s.url.isNone || s.url == some url)
-                && bodyOk j.evented j.cur body
-                && (!s.gotInitial || (decide (t < s.expires) && decide (0 < s.credit)))
-       { j with ok := j.ok && timeOk j t && c, now := t,
-                subs := j.subs.set sid { s with nextSeq := specNextKey seq, gotInitial := true,
-                                                credit := if s.gotInitial then s.credit - 1 else s.credit,
-                                                lastVals := j.cur } })
-  | .trig x t =>
-    let c := (j.evented.getD x false)
-             && (match j.lastTrig[x]? with
-                 | some (some u) => decide (u + (j.rate.getD x 0 : Int) ≤ t)
-                 | some none => true
-                 | none => false)
-    { j with ok := j.ok && timeOk j t && c, now := t,
-             lastTrig := j.lastTrig.set x (some t),
-             subs := j.subs.map (fun s => { s with credit := s.credit + 1 }) }
+  | .notify sid seq t url body => (j.lapse t).notifyAt sid seq t url body
+  | .trig x t => (j.lapse t).trigAt x t
   | .ret _ => j
   | .exc _ => j
 
